@@ -29,14 +29,21 @@ def gen_arrays(rng, nsheps, n):
     out = []
     objs = [1, 2, 3, 4, 5, 7, 8, 9, 12, 16, 24, 31, 100, 1000, 2047, 2048, 4092, 4093, 4095, 4096, 4097, 8191, 8192, 8193]
     while len(out) < n:
-        d = rng.below(11)
+        d = rng.weighted([(0, 4), (1, 3), (2, 1), (3, 2), (4, 1), (5, 1), (6, 2), (7, 1), (8, 1), (9, 1), (10, 1)])
         obj = rng.choice(objs) if rng.chance(4, 5) else rng.range(1, 70000)
         tight = rng.below(2)
         segpages = rng.choice([0, 1, 1, 2, 3, 5])
+        if d in (3, 4, 5, 6, 7) and rng.chance(1, 2):
+            # DIST kinds: aim at the slack rule (segment_bytes - segment_size*unit_size around 4)
+            sb0 = (segpages or 16) * PAGES
+            cands = [(kk, r) for r in range(0, 7) for kk in range(2, 200) if (sb0 - r) % kk == 0 and (sb0 - r) // kk >= 1]
+            kk, r = rng.choice(cands)
+            obj = (sb0 - r) // kk       # segment_bytes - segment_size*unit_size == r exactly
+            tight = 1
         us, sb, ss = approx_layout(obj, d, tight, segpages)
         if ss < 1:
             continue            # DIST kinds with no room for an element: outside the property (DESIGN C17)
-        k = rng.range(0, 3 * nsheps + 2)
+        k = rng.range(0, 3 * nsheps + 2) if rng.chance(1, 2) else rng.range(2 * nsheps, 6 * nsheps + 3)
         delta = rng.choice([0, 0, 1, -1, rng.below(max(1, ss))])
         count = max(1, k * ss + delta)
         sc = (count + ss - 1) // ss
@@ -138,7 +145,7 @@ def run(ctx):
     exe = ctx.link("c17_qarray", ["c17_qarray.c"], exclude=["ds/qarray.c"])
     drv = ctx.model_driver("c17_driver")
     configs = [(1, 1), (2, 1), (3, 2), (4, 1)] if quick else [(1, 1), (1, 3), (2, 1), (2, 2), (3, 2), (4, 1), (4, 4), (5, 1), (7, 1), (8, 2)]
-    narr = 14 if quick else 60
+    narr = 24 if quick else 80
     nrange = 6 if quick else 14
     evals = 0
     nontrivial = set()
@@ -151,12 +158,23 @@ def run(ctx):
         script = []
         plan = []
         r2 = rng.fork()
-        for (count, obj, d, tight, segpages, ss) in arrays:
+        # corpus first: witnesses of the open findings (known_findings.json) and boundary cases
+        corpus = [((81920, 1, 1, 1, 5, 20480), [(2, 40959, 81920), (1, 0, 81920)])]
+        if ns >= 2:
+            corpus += [((511, 16, 0, 0, 1, 256), [(1, 100, 314), (0, 100, 314), (3, 0, 511)]),
+                       ((2048, 8, 1, 1, 1, 512), [(0, 100, 2048), (0, 0, 2048)])]
+        fixed_its = {}
+        for (arr, its0) in corpus:
+            fixed_its[len(fixed_its)] = its0
+        arrays = [c[0] for c in corpus] + arrays
+        for ai, (count, obj, d, tight, segpages, ss) in enumerate(arrays):
             probes = sorted(set([0, count - 1, min(count - 1, ss - 1), min(count - 1, ss), min(count - 1, 2 * ss)] +
                                 [r2.below(count) for _ in range(6)]))
             ranges = gen_ranges(r2, count, ss, nrange)
             its = [(r2.below(4) if j else j % 4, a, b) for j, (a, b) in enumerate(ranges)]
             its += [(k, 0, count) for k in (1, 2, 3)][: (1 if quick else 3)]
+            if ai in fixed_its:
+                its = fixed_its[ai] + its
             ye = r2.choice([0, 0, 3, 50])
             script.append("A %d %d %d %d %d" % (count, obj, d, tight, segpages))
             script.append("S")
@@ -176,9 +194,18 @@ def run(ctx):
         impl_cases = []
         dead = False
         for (acfg, probes, its) in plan:
-            if pos >= len(out) or out[pos] == "TIMEOUT" or dead:
+            if dead:
+                impl_cases.append(None)
+                continue
+            if pos + 3 >= len(out) or out[pos] == "TIMEOUT" or not out[pos].startswith("D "):
+                # the real code crashed / hung / printed garbage while creating or probing this array
                 dead = True
                 impl_cases.append(None)
+                count, obj, d, tight, segpages = acfg
+                c0 = {"config": [ns, nw], "array": dict(count=count, obj_size=obj, dist=DNAMES[d], tight=tight, seg_pages=segpages),
+                      "harness_rc": rc, "last_output": out[-3:], "stderr": err[-300:]}
+                mismatches.append(("crash", c0))
+                oracle_fail.append((None, "the real code crashed or hung (rc=%s) while creating/probing this array" % rc, c0))
                 continue
             D = out[pos].split(); S = out[pos + 1].split(); E = out[pos + 2].split(); pos += 4
             iters = []
@@ -187,13 +214,18 @@ def run(ctx):
                 while pos < len(out) and out[pos].startswith("R "):
                     rl.append(out[pos]); pos += 1
                 if pos >= len(out) or not out[pos].startswith(". "):
-                    iters.append(("TIMEOUT", rl, None))
+                    iters.append(("TIMEOUT", rl, None))   # hang (watchdog) or crash inside the iteration call
                     dead = True
                     break
                 dot = out[pos].split(); pos += 1
                 iters.append((int(dot[1]), rl, int(dot[2])))
             if not dead:
-                pos += 1  # F
+                if pos < len(out) and out[pos] == "F":
+                    pos += 1
+                else:
+                    dead = True
+                    mismatches.append(("crash", {"config": [ns, nw], "array": acfg, "where": "qarray_destroy", "harness_rc": rc}))
+                    oracle_fail.append((None, "the real code crashed in qarray_destroy (rc=%s)" % rc, {"config": [ns, nw], "array": acfg}))
             impl_cases.append((D, S, E, iters))
             segshep = list(map(int, S[1:]))
             oshep = int(D[7])
